@@ -377,6 +377,34 @@ impl<'de> Deserialize<'de> for SpKey {
 #[derive(Debug, serde::Deserialize)]
 struct NtKey(Spanned<String>);
 
+/// the other nesting: a user's key type (newtype struct, not transparent), asked for with its span
+#[derive(Debug, serde::Deserialize)]
+struct KeyName(String);
+
+/// the keys of a table, each taken as `Spanned<KeyName>`; the values are skipped
+struct RootSpannedNames(Vec<Spanned<KeyName>>);
+
+impl<'de> Deserialize<'de> for RootSpannedNames {
+    fn deserialize<D: Deserializer<'de>>(d: D) -> Result<Self, D::Error> {
+        struct V;
+        impl<'de> Visitor<'de> for V {
+            type Value = RootSpannedNames;
+            fn expecting(&self, f: &mut std::fmt::Formatter<'_>) -> std::fmt::Result {
+                f.write_str("a table")
+            }
+            fn visit_map<A: MapAccess<'de>>(self, mut map: A) -> Result<RootSpannedNames, A::Error> {
+                let mut v = Vec::new();
+                while let Some(k) = map.next_key::<Spanned<KeyName>>()? {
+                    map.next_value::<de::IgnoredAny>()?;
+                    v.push(k);
+                }
+                Ok(RootSpannedNames(v))
+            }
+        }
+        d.deserialize_map(V)
+    }
+}
+
 /// the keys of a table, each taken as `NtKey`; the values are skipped
 struct RootKeys(Vec<NtKey>);
 
@@ -804,6 +832,28 @@ impl C14 {
                         }
                     }
                     (Err(e), Ok(_)) => w.bad("spanned-changes-success:newtype-key", format!("{route}: map keys taken as a newtype around Spanned<String> make decoding fail: {e}")),
+                    (Err(_), Err(_)) => {}
+                }
+            }
+            // and through Spanned<_> around a newtype struct
+            for (route, res) in [
+                ("toml::from_str", toml::from_str::<RootSpannedNames>(text).map_err(|e| e.to_string())),
+                ("toml_edit::de::from_str", toml_edit::de::from_str::<RootSpannedNames>(text).map_err(|e| e.to_string())),
+                ("toml::de::Deserializer::new", RootSpannedNames::deserialize(toml::de::Deserializer::new(text)).map_err(|e| e.to_string())),
+            ] {
+                match (res, &plain) {
+                    (Ok(keys), _) => {
+                        for k in keys.0 {
+                            let sp = k.span();
+                            let ok = text.get(sp.clone()).and_then(|raw| refmodel::decode::decode_key(raw).ok()).map_or(false, |segs| segs.len() == 1 && segs[0] == k.get_ref().0);
+                            if ok {
+                                w.bump("serde-key-span-around-newtype");
+                            } else {
+                                w.bad("serde-key-span-differs:spanned-newtype", format!("{route}: key {:?} taken as Spanned<newtype> has span {sp:?}, which does not hold that key", k.get_ref().0));
+                            }
+                        }
+                    }
+                    (Err(e), Ok(_)) => w.bad("spanned-changes-success:spanned-newtype-key", format!("{route}: map keys taken as Spanned<_> around a newtype struct make decoding fail, the bare newtype decodes: {e}")),
                     (Err(_), Err(_)) => {}
                 }
             }
